@@ -17,6 +17,7 @@ harness only (deep-copy comparison before/after each call).
 -/
 import Alos2.Proofs.Flow
 import Alos2.Proofs.Bridge
+import Alos2.Proofs.ProductCached
 
 namespace Alos2.C10
 
@@ -46,5 +47,30 @@ theorem concrete_history_independent (fr : FloatRepr) (hfr : fr.OK) (loads : Lis
     ∀ o ∈ (run { U := fun r => cg.withRpc r, loads := loads } {} ops).1, o.2 = .ok (cg.withRpc o.1) :=
   history_independent { U := fun r => cg.withRpc r, loads := loads }
     (concrete_env_ok fr hfr loads hJ1 hJ2 root file name gname g cg h hb header recs hr hn hk hd) ops
+
+/-- THE WHOLE PRODUCT, EVERY HISTORY (`Model/ProductCached.lean`, tied by H12): after any sequence of opens of the product
+    (any `use_cache` / `create_cache` / positive `records_per_chunk`), CLI runs, deletions and interrupted writes on any of its
+    image files, starting from no index files, EVERY open returned the tree of a fresh uncached open at its own chunk size -/
+theorem product_history_independent (fr : FloatRepr) (loads : List Char → Except Err PyVal) (root : String) (fs : Files)
+    (G : String → CGroup) (ra : KVs Leaf) (su : List (String × SGroup)) (me : Grp Leaf) (imgs : List String)
+    (hh : openProductHead fs = .ok (ra, su, me, imgs))
+    (hok : ∀ name ∈ imgs, ImgOK fr loads root fs name (G name))
+    (ops : List POp) (hpos : ∀ u cr r, POp.open_ u cr r ∈ ops → 0 < r) :
+    ∀ o ∈ (prun fr loads root fs [] ops).1, o.2 = openProductC fr root fs o.1 :=
+  prun_correct fr loads root fs G ra su me imgs hh hok [] (PInv_empty loads G imgs) ops hpos
+
+/-- … "writes only index files under the user cache directory, and only when asked": one open of the product leaves every
+    index file as it was unless `create_cache`, never touches the files next to the images, and keeps the index files benign -/
+theorem product_writes (fr : FloatRepr) (loads : List Char → Except Err PyVal) (root : String) (fs : Files)
+    (G : String → CGroup) (ra : KVs Leaf) (su : List (String × SGroup)) (me : Grp Leaf) (imgs : List String)
+    (hh : openProductHead fs = .ok (ra, su, me, imgs))
+    (hok : ∀ name ∈ imgs, ImgOK fr loads root fs name (G name))
+    (c : Caches) (hc : PInv loads G imgs c) (use create : Bool) (rpc : Nat) (hr : 0 < rpc) :
+    (create = false → ∀ n, (openProductCached fr loads root fs c use create rpc).2.get n = c.get n) ∧
+    (∀ n, ((openProductCached fr loads root fs c use create rpc).2.get n).adj = (c.get n).adj) ∧
+    PInv loads G imgs (openProductCached fr loads root fs c use create rpc).2 :=
+  ⟨(openProductCached_correct fr loads root fs G ra su me imgs hh hok c hc use create rpc hr).2.2.2.1,
+   (openProductCached_correct fr loads root fs G ra su me imgs hh hok c hc use create rpc hr).2.2.2.2,
+   (openProductCached_correct fr loads root fs G ra su me imgs hh hok c hc use create rpc hr).2.2.1⟩
 
 end Alos2.C10
